@@ -44,18 +44,31 @@ Definition spec_vals (s:colspec) : list aval :=
   [VType (cs_type s); VNull (cs_null s); VDefault (cs_default s); VComment (cs_comment s); VAutoinc (cs_autoinc s)].
 Definition assign (s:stmt) : list aval :=
   match s with
-  | SetNull b => [VNull b]
-  | SetDefault d | MySQLAlterDefault d => [VDefault d]
-  | SetType t _ => [VType t]
-  | SetComment c => [VComment c]
-  | Rename n | MSSQLSpRename n => [VName n]
-  | MySQLChange n s => VName n :: spec_vals s
-  | MySQLModify s => spec_vals s
-  | MSSQLAlterNull t b => [VType t; VNull b]
-  | MSSQLAlterType t => [VType t; VNull true]
-  | MSSQLDropDefault => [VDefault None]
-  | MSSQLAddDefault v => [VDefault (Some v)]
-  | DropConstraint _ | AddConstraint _ => []
+  | SetNull _ b => [VNull b]
+  | SetDefault _ d | MySQLAlterDefault _ d => [VDefault d]
+  | SetType _ t _ => [VType t]
+  | SetComment _ c => [VComment c]
+  | Rename _ n | MSSQLSpRename _ n => [VName n]
+  | MySQLChange _ n s => VName n :: spec_vals s
+  | MySQLModify _ s => spec_vals s
+  | MSSQLAlterNull _ t b => [VType t; VNull b]
+  | MSSQLAlterType _ t => [VType t; VNull true]
+  | MSSQLDropDefault _ => [VDefault None]
+  | MSSQLAddDefault _ v => [VDefault (Some v)]
+  | DropConstraint _ | AddConstraint _ _ => []
+  end.
+
+(* the effect of a statement list when every statement addresses the column correctly *)
+Definition run_total (ss:list stmt) (st:colstate) : colstate := fold_left apply ss st.
+
+(* ... and whether it does: starting from the name [cur], every statement that names a column names the
+   column's current name; a rename changes the current name for the statements after it *)
+Definition name_after (cur:N) (s:stmt) : N :=
+  match s with Rename _ n | MSSQLSpRename _ n | MySQLChange _ n _ => n | _ => cur end.
+Fixpoint addr_ok (cur:N) (ss:list stmt) : bool :=
+  match ss with
+  | [] => true
+  | s :: r => match addr s with Some c => N.eqb c cur | None => true end && addr_ok (name_after cur s) r
   end.
 
 (* the attributes a statement rewrites as part of *restating* the column definition, i.e. whether or
@@ -63,14 +76,18 @@ Definition assign (s:stmt) : list aval :=
    restates type and nullability (without NULL/NOT NULL it resets nullability) *)
 Definition restates (s:stmt) : list attr :=
   match s with
-  | MySQLChange _ _ | MySQLModify _ => [AType; ANull; ADefault; AComment; AAutoinc]
-  | MSSQLAlterNull _ _ => [AType; ANull]
-  | MSSQLAlterType _ => [ANull]
+  | MySQLChange _ _ _ | MySQLModify _ _ => [AType; ANull; ADefault; AComment; AAutoinc]
+  | MSSQLAlterNull _ _ _ => [AType; ANull]
+  | MSSQLAlterType _ _ => [ANull]
   | _ => []
   end.
 
 (* ------------------------------------------------------------------ input / output of one call *)
-Record c13_in := mkIn { i_d : dialect; i_schema : bool; i_req : request; i_ex : existing }.
+(* the table the operation is about: (schema or None, table name) *)
+Definition target := (option N * N)%type.
+Record c13_in := mkIn { i_d : dialect; i_target : target; i_req : request; i_ex : existing }.
+(* output of the implementation: every emitted statement with the (schema, table) it targets *)
+Definition iout := (list (target * stmt) * option err)%type.
 
 (* requested value of an attribute, if it was requested *)
 Definition tri_val (f:option N -> aval) (t:tri N) : option aval :=
@@ -136,20 +153,26 @@ Definition no_invention (req:request) (ex:existing) (ss:list stmt) : Prop :=
   forall s v w, In s ss -> In v (assign s) -> req_val req (attr_of v) = None ->
                 stated_val ex (attr_of v) = Some w -> v = w.
 
-Definition C13_holds (i:c13_in) (o:out) : Prop :=
+Definition C13_holds (i:c13_in) (o:iout) : Prop :=
   let req := i_req i in let ex := i_ex i in
-  let (ss, e) := o in
+  let (tss, e) := o in
+  let ss := map snd tss in
+  (* every statement is about the operation's schema + table *)
+  (forall ts, In ts tss -> fst ts = i_target i) /\
   no_invention req ex ss /\
   match e with
   | None =>
       unsupported i = false /\
-      forall st0, matches ex st0 -> stated_enough ss req ex st0 -> run ss st0 = override st0 req
+      (* no statement addresses a column name the column does not have at that point (run = Some _),
+         and the final state is "existing overridden by requested" *)
+      forall st0, matches ex st0 -> stated_enough ss req ex st0 -> run ss st0 = Some (override st0 req)
   | Some _ =>
       (* raised: only because the change cannot be expressed, and what was emitted before the
-         exception moved attributes only to their requested values *)
+         exception addressed the column correctly and moved attributes only to their requested values *)
       unsupported i = true /\
       forall st0, matches ex st0 -> stated_enough ss req ex st0 ->
-        forall a, get a (run ss st0) = get a st0 \/ get a (run ss st0) = get a (override st0 req)
+        exists st', run ss st0 = Some st' /\
+        forall a, get a st' = get a st0 \/ get a st' = get a (override st0 req)
   end.
 
 (* ------------------------------------------------------------------ boolean equalities *)
@@ -177,21 +200,21 @@ Definition spec_eqb (a b:colspec) : bool :=
   && opt_eqb N.eqb (cs_default a) (cs_default b) && opt_eqb N.eqb (cs_comment a) (cs_comment b).
 Definition stmt_eqb (a b:stmt) : bool :=
   match a, b with
-  | SetNull x, SetNull y => Bool.eqb x y
-  | SetDefault x, SetDefault y => opt_eqb N.eqb x y
-  | SetType t u, SetType t' u' => ty_eqb t t' && opt_eqb N.eqb u u'
-  | SetComment x, SetComment y => opt_eqb N.eqb x y
-  | Rename x, Rename y => N.eqb x y
-  | MySQLChange n s, MySQLChange n' s' => N.eqb n n' && spec_eqb s s'
-  | MySQLModify s, MySQLModify s' => spec_eqb s s'
-  | MySQLAlterDefault x, MySQLAlterDefault y => opt_eqb N.eqb x y
-  | MSSQLAlterNull t b, MSSQLAlterNull t' b' => ty_eqb t t' && Bool.eqb b b'
-  | MSSQLAlterType t, MSSQLAlterType t' => ty_eqb t t'
-  | MSSQLDropDefault, MSSQLDropDefault => true
-  | MSSQLAddDefault x, MSSQLAddDefault y => N.eqb x y
-  | MSSQLSpRename x, MSSQLSpRename y => N.eqb x y
+  | SetNull c x, SetNull c' y => N.eqb c c' && Bool.eqb x y
+  | SetDefault c x, SetDefault c' y => N.eqb c c' && opt_eqb N.eqb x y
+  | SetType c t u, SetType c' t' u' => N.eqb c c' && ty_eqb t t' && opt_eqb N.eqb u u'
+  | SetComment c x, SetComment c' y => N.eqb c c' && opt_eqb N.eqb x y
+  | Rename c x, Rename c' y => N.eqb c c' && N.eqb x y
+  | MySQLChange c n s, MySQLChange c' n' s' => N.eqb c c' && N.eqb n n' && spec_eqb s s'
+  | MySQLModify c s, MySQLModify c' s' => N.eqb c c' && spec_eqb s s'
+  | MySQLAlterDefault c x, MySQLAlterDefault c' y => N.eqb c c' && opt_eqb N.eqb x y
+  | MSSQLAlterNull c t b, MSSQLAlterNull c' t' b' => N.eqb c c' && ty_eqb t t' && Bool.eqb b b'
+  | MSSQLAlterType c t, MSSQLAlterType c' t' => N.eqb c c' && ty_eqb t t'
+  | MSSQLDropDefault c, MSSQLDropDefault c' => N.eqb c c'
+  | MSSQLAddDefault c x, MSSQLAddDefault c' y => N.eqb c c' && N.eqb x y
+  | MSSQLSpRename c x, MSSQLSpRename c' y => N.eqb c c' && N.eqb x y
   | DropConstraint x, DropConstraint y => N.eqb x y
-  | AddConstraint x, AddConstraint y => N.eqb x y
+  | AddConstraint c x, AddConstraint c' y => N.eqb c c' && N.eqb x y
   | _, _ => false
   end.
 Definition err_eqb (a b:err) : bool :=
@@ -248,10 +271,15 @@ Definition check_no_invention (req:request) (ex:existing) (ss:list stmt) : bool 
      | _, _ => true
      end) (assign s)) ss.
 
-Definition check_C13 (i:c13_in) (o:out) : bool :=
+Definition target_eqb (a b:target) : bool := opt_eqb N.eqb (fst a) (fst b) && N.eqb (snd a) (snd b).
+
+Definition check_C13 (i:c13_in) (o:iout) : bool :=
   let req := i_req i in let ex := i_ex i in
-  let (ss, e) := o in
+  let (tss, e) := o in
+  let ss := map snd tss in
+  forallb (fun ts => target_eqb (fst ts) (i_target i)) tss &&
   check_no_invention req ex ss &&
+  addr_ok (e_name ex) ss &&
   match e with
   | None => negb (unsupported i) && forallb (check_attr req ex ss) all_attrs
   | Some _ => unsupported i && forallb (check_attr_prefix req ex ss) all_attrs
@@ -261,11 +289,25 @@ Definition check_C13 (i:c13_in) (o:out) : bool :=
 Definition model_C13 (i:c13_in) : out := plan (i_d i) (i_req i) (i_ex i).
 (* the impl-level call without the toimpl layer (used to structure the proofs) *)
 Definition inner_C13 (i:c13_in) : out := alter_column (i_d i) (i_req i) (i_ex i).
-Definition noop (s:stmt) : bool := match s with DropConstraint _ | AddConstraint _ => true | _ => false end.
-Definition corr_C13 (i:c13_in) (o:out) : bool :=
-  let (ms, me) := model_C13 i in
-  let (ss, e) := o in
-  stmts_eqb ms ss && opt_eqb err_eqb me e.
+Definition noop (s:stmt) : bool := match s with DropConstraint _ | AddConstraint _ _ => true | _ => false end.
+(* every construct of one call is built with the call's own table_name / schema *)
+Definition tagged_C13 (i:c13_in) : iout :=
+  (map (fun s => (i_target i, s)) (fst (model_C13 i)), snd (model_C13 i)).
+
+Fixpoint tstmts_eqb (a b:list (target * stmt)) : bool :=
+  match a, b with
+  | [], [] => true
+  | (t, x) :: a', (t', y) :: b' => target_eqb t t' && stmt_eqb x y && tstmts_eqb a' b'
+  | _, _ => false
+  end.
+Definition corr_C13 (i:c13_in) (o:iout) : bool :=
+  let (ms, me) := tagged_C13 i in
+  let (tss, e) := o in
+  tstmts_eqb ms tss && opt_eqb err_eqb me e.
+
+(* targets used by the harness encoders: schema 's' = 60, table 't' = 61 *)
+Definition tS : target := (Some 60%N, 61%N).
+Definition tN : target := (None, 61%N).
 
 (* the class on which C13_effect is proved at full strength: a requested autoincrement is honoured
    only by MySQL/MariaDB (elsewhere it is a no-op request only if the stated existing value equals it) *)
@@ -274,6 +316,16 @@ Definition autoinc_honoured (i:c13_in) : bool :=
   | None => true
   | Some b => is_mysql (i_d i) || opt_eqb Bool.eqb (e_autoinc (i_ex i)) (Some b)
   end.
+
+(* second excluded class (see C13_check_after_rename_refuted): toimpl.alter_column adds the type-bound CHECK
+   of the new type AFTER the impl-level call has renamed the column, and the CHECK text still names the
+   old column *)
+Definition check_after_rename (i:c13_in) : bool :=
+  match r_name (i_req i), ck_of (r_type (i_req i)) with
+  | Some n, Some _ => negb (N.eqb n (e_name (i_ex i))) && match i_d i with Dsqlite => false | _ => true end
+  | _, _ => false
+  end.
+Definition inclass_C13 (i:c13_in) : bool := autoinc_honoured i && negb (check_after_rename i).
 
 (* ------------------------------------------------------------------ the existing_* values each dialect needs
    (C13_stated_enough_exact proves that, for the statements the model emits, [stated_enough] is exactly this) *)
@@ -304,4 +356,5 @@ Definition unknown_only_at (req:request) (ex:existing) (st0:colstate) (a:attr) :
 (* dialect d really needs attribute a: an input on which only a is unknown, no exception, wrong effect *)
 Definition needed_witness (d:dialect) (a:attr) : Prop :=
   exists i st0, i_d i = d /\ autoinc_honoured i = true /\ unknown_only_at (i_req i) (i_ex i) st0 a /\
-                snd (model_C13 i) = None /\ run (fst (model_C13 i)) st0 <> override st0 (i_req i).
+                snd (model_C13 i) = None /\
+                exists st', run (fst (model_C13 i)) st0 = Some st' /\ st' <> override st0 (i_req i).
